@@ -244,7 +244,9 @@ func (e *Exec) step(fn *ssa.Function, fc *FuncContract, st *State, ins ssa.Instr
 		l := e.toIdx(st, e.val(st, x.Len))
 		c := e.toIdx(st, e.val(st, x.Cap))
 		lbl := e.srcText(x.Pos())
-		e.check(st, "make", lbl, and(e.le(e.sc.idxLit(0), l), e.le(l, c), e.le(c, e.sc.idxLit(maxLen))), x.Pos())
+		e.check(st, "make", lbl, and(e.le(e.sc.idxLit(0), l), e.le(l, c), e.le(c, e.sc.idxLit(4*maxLen))), x.Pos())
+		// assumption (memory is finite): an allocation that succeeds has at most 2^40 elements
+		e.assume(st, e.le(c, e.sc.idxLit(maxLen)))
 		e.allocCheck(st, x, l, c)
 		el := x.Type().Underlying().(*types.Slice).Elem()
 		ref := e.allocRef(st)
